@@ -19,10 +19,15 @@ MIN64 = "-9223372036854775808"
 def sanitize(op):
     t = op.split()
     t = [UTF8.get(x, x) for x in t]
+    # GeoAdd's members travel as <member>:<longitude bits>:<latitude bits>
+    t = [":".join([UTF8.get(x.split(":")[0], x.split(":")[0])] + x.split(":")[1:]) if x.count(":") == 2 else x for x in t]
     # A-15b (known finding of C01): a command that fails after creating its key leaves an empty key
     # behind and emits nothing
     if len(t) > 3 and t[0] == "api" and t[1] == "DecrBy" and t[3] == MIN64:
         t[3] = "5"
+    # GeoAddNX on a missing key creates an empty sorted set and emits nothing (FINDINGS.md D-8, the A-15b pattern)
+    if len(t) > 2 and t[0] == "api" and t[1] == "GeoAddNX":
+        return "api Exists " + t[2]
     # empty collections created through the embedded API (known finding of C03) emit nothing either
     if len(t) > 1 and t[0] == "api" and ((t[1] == "HMSet" and t[3:] == ["[", "]"]) or (t[1] in ("SAdd", "LPush", "RPush") and len(t) == 3)):
         return "api Exists " + t[2]
@@ -78,6 +83,8 @@ def run(ctx, proofs_ok):
                              ("DEL", "g2"), ("GEOADD", "g2", "0", "0", "origin"), ("GEOADD", "str", "1", "1", "m"), ("SET", "str", "v"), ("GEOADD", "str", "1", "1", "m"),
                              ("ZREM", "g", "Palermo"), ("GEOADD", "g", "13.361389", "38.115556", "Palermo")]):
         geo += [c(*cmd), "replicate b", "ldump", "inst b", "ldump", "inst a"]
+    # (the model's side of GEOADD's records is tied at the API level: `api GeoAdd` in the zset family above - records
+    # against `Feed.emission`, and the closed loop; here the command goes over the network protocol)
     g, _ = vlib.run_pair(ctx, geo, vlib.build_harness(ctx), "geo")
     ctx.cov["evaluations"] += len(geo)
     for i, op in enumerate(geo):
